@@ -206,6 +206,9 @@ func RunDial(p *DProg) []Ev {
 			if k < hdr-8 && k > 2 && k%step != 0 {
 				continue
 			}
+			if k > hdr+640 && k < total-8 && k%97 != 0 {
+				continue // long tails: every 97th offset beyond the first 640 bytes
+			}
 			one(fmt.Sprintf("s%d", k), []int{k})
 			if p.AllSplit == "3" && k >= hdr-4 {
 				if k+1 < total {
